@@ -201,6 +201,38 @@ pub fn random_ending(rng: &mut Rng) -> Pos {
     }
 }
 
+/// Rejection-sample terminal positions (mate or stalemate) in which the side to move still owns
+/// at least one piece besides the king (so its remaining pieces are pinned, blocked or useless).
+pub fn terminal_with_pieces(rng: &mut Rng, tries: usize, want_stalemate: bool) -> Vec<Pos> {
+    let mut out = vec![];
+    for _ in 0..tries {
+        let mut p = Pos::empty();
+        let weak = *rng.pick(&[Col::W, Col::B]);
+        // the weak king in a corner or on an edge, the strong king nearby
+        let ks = *rng.pick(&[0u8, 7, 56, 63, 1, 6, 8, 15, 48, 55, 57, 62, 3, 4, 24, 31]);
+        p.sq[ks as usize] = Some((weak, Pc::K));
+        place_random(&mut p, rng, weak.opp(), Pc::K);
+        for _ in 0..1 + rng.below(2) { let pc = *rng.pick(&[Pc::N, Pc::B, Pc::R, Pc::P, Pc::P, Pc::Q]); place_near(&mut p, rng, weak, pc, ks); }
+        for _ in 0..1 + rng.below(3) { let pc = *rng.pick(&[Pc::Q, Pc::R, Pc::R, Pc::B, Pc::N, Pc::P]); place_random(&mut p, rng, weak.opp(), pc); }
+        p.turn = weak;
+        if !p.is_consistent() { continue; }
+        if !p.legal_moves().is_empty() { continue; }
+        let st = p.in_check(weak);
+        if st != want_stalemate { out.push(p); }
+    }
+    out
+}
+
+fn place_near(p: &mut Pos, rng: &mut Rng, c: Col, pc: Pc, near: u8) -> bool {
+    let (f, r) = (file_of(near), rank_of(near));
+    let mut cands = vec![];
+    for df in -2i8..=2 { for dr in -2i8..=2 { if let Some(s) = sq_of(f + df, r + dr) { if p.sq[s as usize].is_none() && !(pc == Pc::P && (s / 8 == 0 || s / 8 == 7)) { cands.push(s); } } } }
+    if cands.is_empty() { return false; }
+    let s = *rng.pick(&cands);
+    p.sq[s as usize] = Some((c, pc));
+    true
+}
+
 #[derive(Clone, Copy, Debug, PartialEq, Eq)]
 pub enum Policy { Uniform, Special, CheckSeeking, Quiet, Shuffle }
 
